@@ -9,6 +9,7 @@ Theorems (all over Model/Routing.lean applied to the tables regenerated from /re
   route_leader              produce/fetch: an accepted request goes to the one broker leading every partition
   route_leader_mismatch     partitions led by different brokers → the request is refused
   route_listoffsets_leader  a split ListOffsets part goes to its partition's leader
+  route_listoffsets_designated … and never to a broker the layout does not designate (unknown leader → control)
   filter_eq_last_refresh    topic-filtered metadata from the cache = restriction of the last answer
   update_follows            after update(m) the layout and the connection groups are those of m
   conns_invariant           … along every history of updates
@@ -112,9 +113,9 @@ theorem route_leader_mismatch (c : Cluster) (tps : List (String × List Int))
 
 /-- … and the whole `sendRequest`: the request reaches a connection of that leader's group when the pool
 has one (which `conns_invariant` guarantees for every broker of the layout). -/
-theorem route_leader_target (a : ApiMethods) (c : Cluster) (conns : List Int) (r : ReqInfo) (b : Int)
+theorem route_leader_target (a : ApiMethods) (c : Cluster) (conns : List (Int × Addr)) (r : ReqInfo) (b : Int) (addr : Addr)
     (ha : firstCase sendRequestCases a = some .broker) (hb : a.broker = .leaderAll)
-    (hwf : BrokersWF c) (h : route sendRequestCases a c conns r = .broker b) :
+    (hwf : BrokersWF c) (h : route sendRequestCases a c conns r = .broker b addr) :
     ∀ tn ps, (tn, ps) ∈ r.tps → ∀ p ∈ ps, LedBy c tn p b := by
   unfold route at h
   simp only [ha, brokerMethod, hb] at h
@@ -124,7 +125,7 @@ theorem route_leader_target (a : ApiMethods) (c : Cluster) (conns : List Int) (r
     simp only [hl, KV.Routing.ofExcept, sendTarget] at h
     split at h
     · split at h
-      · injection h with h; subst h; exact route_leader c r.tps id hwf hl
+      · injection h with h _; subst h; exact route_leader c r.tps id hwf hl
       · cases h
     · cases h
 
@@ -135,6 +136,26 @@ theorem route_listoffsets_leader (c : Cluster) (tn : String) (p : Int) (t : Topi
     (hl : c.brokers.lookup part.leader = some br) :
     leaderFirst c [(tn, [p])] = .ok br.id := by
   simp [leaderFirst, lookupD, ht, hp, hl]
+
+/-- … and a ListOffsets part is never sent to a broker the layout does not designate: the target is the listed
+leader of the part's partition, or −1 (the control connection; any broker then answers with the error code)
+when the topic, the partition or the leader is unknown.  (Before fix D20 an unknown leader read the zero
+broker and the part went to broker 0.) -/
+theorem route_listoffsets_designated (c : Cluster) (tn : String) (p : Int) (ps : List Int)
+    (rest : List (String × List Int)) (b : Int) (h : leaderFirst c ((tn, p :: ps) :: rest) = .ok b) :
+    b = -1 ∨ ∃ e br, (lookupD c.topics tn Topic.zero).partitions.find? (fun e => e.2.id == p) = some e ∧
+      c.brokers.lookup e.2.leader = some br ∧ br.id = b := by
+  simp only [leaderFirst] at h
+  split at h
+  · next e he =>
+    split at h
+    · next br hbr => injection h with h; exact Or.inr ⟨e, br, he, hbr, h⟩
+    · injection h with h; exact Or.inl h.symm
+  · injection h with h; exact Or.inl h.symm
+
+example : (match leaderFirst ⟨0, [(0, ⟨0, "b0", 9092, ""⟩), (1, ⟨1, "b1", 9092, ""⟩)],
+    [("t", ⟨"t", 0, [(0, ⟨0, 0, 7, [], [], []⟩)]⟩)]⟩ [("t", [0])] with | .ok b => b | .error _ => 0) = -1 := by decide
+
 
 
 /-! ## the metadata cache -/
@@ -169,8 +190,9 @@ example :
 /-! ## refresh -/
 
 /-- **update_follows**: after a successful refresh with answer `m` the cached answer is `m` (normalised), the
-layout is the one built from it, and the pool has a connection group for exactly the brokers of `m`
-(given it matched the previous layout before) — so every later route is computed from `m`. -/
+layout is the one built from it, and the pool has a connection group for exactly the brokers of `m`, each
+dialling the host:port that `m` gives for its broker (`ConnsInv`; given it held for the previous layout) — so
+every later route is computed from `m`, including the address a moved or re-registered broker now has. -/
 theorem update_follows (s : PoolState) (m : MResponse) (h : ConnsInv s) :
     (update s (some m) false).metadata = some (normalize m) ∧
     (update s (some m) false).layout = makeLayout (normalize m) ∧
@@ -191,26 +213,33 @@ theorem conns_invariant (hist : List (Option MResponse × Bool)) :
   suffices h : ∀ s, ConnsInv s → ConnsInv (hist.foldl (fun s e => update s e.1 e.2) s) by
     apply h
     intro id
-    simp [keys, Cluster.zero]
+    simp [Cluster.zero, List.lookup]
   induction hist with
   | nil => intro s hs; exact hs
   | cons e es ih =>
     intro s hs
     exact ih _ (Lemmas.Routing.update_connsInv s e.1 e.2 hs)
 
-/-- after a leader moved and the refresh delivered `m`, a produce/fetch request for partitions that `m` says are
-led by broker `b` is sent to `b` -/
-theorem route_follows_update (a : ApiMethods) (s : PoolState) (m : MResponse) (r : ReqInfo) (b : Int)
+/-- after a leader moved (or a broker re-registered at another host/port) and the refresh delivered `m`, a
+produce/fetch request for partitions that `m` says are led by broker `b` is sent to `b` at the address `m` gives -/
+theorem route_follows_update (a : ApiMethods) (s : PoolState) (m : MResponse) (r : ReqInfo) (b : Int) (br : Broker)
     (h : ConnsInv s) (ha : firstCase sendRequestCases a = some .broker) (hb : a.broker = .leaderAll)
     (hl : leaderAll (makeLayout (normalize m)) r.tps (-1) = .ok b) (hb0 : 0 ≤ b)
-    (hin : b ∈ keys (makeLayout (normalize m)).brokers) :
-    route sendRequestCases a (update s (some m) false).layout (update s (some m) false).conns r = .broker b := by
+    (hin : (makeLayout (normalize m)).brokers.lookup b = some br) :
+    route sendRequestCases a (update s (some m) false).layout (update s (some m) false).conns r
+      = .broker b (br.host, br.port) := by
   have hf := update_follows s m h
-  have hc : (update s (some m) false).conns.contains b = true := by
-    simp only [List.contains_eq_mem, decide_eq_true_eq]
-    exact (hf.2.2.2 b).mpr (hf.2.1 ▸ hin)
+  have hc : (update s (some m) false).conns.lookup b = some (br.host, br.port) := by
+    rw [hf.2.2.2 b, hf.2.1, hin]; rfl
   unfold route
   simp only [ha, brokerMethod, hb, hf.2.1, hl, KV.Routing.ofExcept, sendTarget, hc]
   simp [hb0]
+
+/-- a broker that keeps id and host but re-registers on another port gets a new group at the new port -/
+example :
+    let m1 : MResponse := ⟨0, [⟨1, "h1", 9092, ""⟩, ⟨2, "h2", 9092, ""⟩], "", 1, []⟩
+    let m2 : MResponse := ⟨0, [⟨1, "h1", 9093, ""⟩, ⟨2, "h2", 9092, ""⟩], "", 1, []⟩
+    (update (update {} (some m1) false) (some m2) false).conns = [(2, ("h2", 9092)), (1, ("h1", 9093))] := by
+  decide
 
 end KV.Props.C12
